@@ -126,9 +126,9 @@ PROPS = {
         explanation='Lattice kernels proved; access decisions bounded.',
     ),
     'C15': dict(
-        v=[], k=[('neumann_parser', ['c15_binding_power_matches_documented_levels', 'c15_stmt_binding_power_matches_documented_levels'])], b=['c15_parser'],
+        v=['C15_depth'], k=[('neumann_parser', ['c15_binding_power_matches_documented_levels', 'c15_stmt_binding_power_matches_documented_levels'])], b=['c15_parser'],
         level='other',
-        technique='Kani full-domain harnesses on both copies of the Pratt binding-power table (expression parser expr.rs, statement parser parser.rs) vs the documented precedence levels; bounded native checks of totality, determinism, depth guard and statement/expression agreement',
+        technique='Verus: the recursion guard of the statement parser (enter_nested, parse_expr_bp, parse_select_body) proved to refuse exactly at MAX_DEPTH open levels and to close its level on every exit (the Pratt loop behind it is external and assumed depth-balanced); Kani full-domain harnesses on both copies of the Pratt binding-power table (expression parser expr.rs, statement parser parser.rs) vs the documented precedence levels; bounded native checks of totality, determinism, depth guard and statement/expression agreement',
         claim='both binding-power tables are order-isomorphic to the documented precedence, left-associative, prefix tighter than infix (Kani, complete)',
         explanation='Table proved; parser totality bounded.',
     ),
